@@ -1,4 +1,4 @@
-from sa.selftest.harness import M, T
+from sa.selftest.harness import M, T, Variant
 
 H = "sharepoint2text/parsing/extractors/html_extractor.py"
 EP = "sharepoint2text/parsing/extractors/epub_extractor.py"
@@ -23,6 +23,7 @@ MUTANTS = [
 ]
 
 TWINS = [
+    T("html-sniff-window-4k", "sharepoint2text/parsing/extractors/html_extractor.py", "            head = _RE_COMMENT_BYTES.sub(b\"\", content[:8192])\n", "            window = content[:4096]\n            head = _RE_COMMENT_BYTES.sub(b\"\", window)\n"),
     T("msg-html-hint-as-class", MS, "script)(\\s|/|>)\",", "script)[\\s/>]\","),
     T("html-skip-test-reordered", H, "        if self.skip_depth > 0:\n            if tag == self._skip_tag:\n                self.skip_depth += 1\n            return\n\n        if tag in REMOVE_TAGS:", "        if self.skip_depth > 0:\n            if self._skip_tag == tag:\n                self.skip_depth = self.skip_depth + 1\n            return\n\n        if tag in REMOVE_TAGS:"),
     T("html-comment-handler-documented", H, "    def handle_comment(self, data: str):\n        # Ignore comments\n        pass", "    def handle_comment(self, data: str):\n        \"\"\"Comments never reach the tree.\"\"\"\n        return None"),
